@@ -539,3 +539,56 @@ class AliasInit(FunctionContract):
 
 
 ALIAS_EXPORT.append(AliasInit())
+
+
+class TraceAppend(FunctionContract):
+    """Trace.append(label, values): the label is added at the end of the index and the values become one more column (as a column vector,
+    whatever vector-like shape they came in) to the right of the existing snapshots, which are unchanged; arrays that are not vector-like
+    are refused (DimensionError) before anything is stored.  (Shapes are enumerated; contents are concrete distinct numbers.)"""
+    qualname = 'fsic.extensions.model.Trace.append'
+    props = ('C17',)
+    required_covers = ('appended', 'refused')
+
+    def scenarios(self):
+        return [f'{ex}|{sh}' for ex in ('empty', 'one-column', 'three-columns') for sh in ('column', 'row', 'flat', 'matrix', 'cube', 'single')]
+
+    def setup(self, interp, scenario):
+        import numpy as np
+        from fsic.extensions.model import Trace
+        ex, sh = scenario.split('|')
+        k = 1 if sh == 'single' else 2
+        cols = {'empty': 0, 'one-column': 1, 'three-columns': 3}[ex]
+        existing = np.array([]) if cols == 0 else (np.arange(k * cols, dtype=float).reshape(k, cols) + 100.0)
+        index = [f'l{i}' for i in range(cols)]
+        new = np.array([7.5, 8.5][:k])
+        values = {'column': lambda: new.reshape(-1, 1), 'row': lambda: new.reshape(1, -1), 'flat': lambda: new, 'single': lambda: new.reshape(1, 1),
+                  'matrix': lambda: np.ones((2, 2)), 'cube': lambda: np.ones((2, 1, 1))}[sh]()
+        obj = SObj(Trace, {'names': ['Y', 'C'][:k], 'index': list(index), 'values': existing.copy()}, label='trace')
+        e = {'obj': obj, 'existing': existing, 'index': index, 'new': new, 'values_arg': values, 'label': object(), 'k': k, 'cols': cols, 'inputs': {}}
+        return Call([e['label'], values], {}, self_obj=obj, entry=e)
+
+    def post(self, interp, scenario, call, out):
+        import numpy as np
+        from fsic.exceptions import DimensionError
+        ctx = interp.ctx
+        e = call.entry
+        ex, sh = scenario.split('|')
+        f = e['obj'].fields
+        if out.kind == 'raise':
+            ctx.cover('refused')
+            ctx.prove(z3.BoolVal(exc_class(out.exc) is DimensionError and sh in ('matrix', 'cube')), 'DimensionError_only_for_values_that_are_not_vector_like', 'raises')
+            ctx.prove(z3.BoolVal(f['index'] == e['index'] and np.array_equal(f['values'], e['existing'])), 'a_refused_snapshot_stores_nothing', 'frame')
+            return
+        ctx.cover('appended')
+        ctx.prove(z3.BoolVal(sh not in ('matrix', 'cube')), 'values_that_are_not_vector_like_are_refused', 'raises')
+        ctx.prove(z3.BoolVal(f['index'][:-1] == e['index'] and len(f['index']) == e['cols'] + 1 and f['index'][-1] is e['label']), 'label_added_at_the_end_of_the_index', 'ensures')
+        v = f['values']
+        ok = isinstance(v, np.ndarray) and v.shape == (e['k'], e['cols'] + 1)
+        ctx.prove(z3.BoolVal(ok), 'values_gain_exactly_one_column', 'ensures', note=str(getattr(v, 'shape', None)))
+        if ok:
+            ctx.prove(z3.BoolVal(v[:, -1].tolist() == e['new'].tolist()), 'the_new_column_holds_the_values_in_order', 'ensures')
+            ctx.prove(z3.BoolVal(e['cols'] == 0 or np.array_equal(v[:, :-1], e['existing'])), 'earlier_snapshots_are_unchanged', 'frame')
+        ctx.prove(z3.BoolVal(f['names'] == ['Y', 'C'][:e['k']]), 'names_unchanged', 'frame')
+
+
+CONTRACTS_TRACE.append(TraceAppend())
